@@ -1,6 +1,60 @@
 /- Text-side (tokenizer / parser / formatter / validator / imports) operations of the driver. -/
+import Bebop.Text.Parser
+import Bebop.Text.Grammar
+import Bebop.Text.Dump
+import Driver.Gen
+
+open Bebop.Text
+
 namespace Driver.Text
 
-def step (_toks : List String) : String := "bad-op text-side-not-built"
+def hexValC (c : Char) : Option Nat :=
+  if '0' ≤ c ∧ c ≤ '9' then some (c.toNat - 48)
+  else if 'a' ≤ c ∧ c ≤ 'f' then some (c.toNat - 87)
+  else if 'A' ≤ c ∧ c ≤ 'F' then some (c.toNat - 55)
+  else none
+
+partial def unhexChars : List Char → List UInt8 → Option (List UInt8)
+  | [], acc => some acc.reverse
+  | [_], _ => none
+  | a :: b :: rest, acc =>
+    match hexValC a, hexValC b with
+    | some x, some y => unhexChars rest (UInt8.ofNat (x * 16 + y) :: acc)
+    | _, _ => none
+
+def unhex (s : String) : Option (List UInt8) := if s == "-" then some [] else unhexChars s.toList []
+
+def showRead : ReadResult → String
+  | .ok f => "ok " ++ dumpFile f
+  | .err => "err"
+  | .panic => "panic"
+  | .fuel => "fuel"
+  | .declined => "declined"
+
+def kindName (k : TK) : String := (reprStr k).replace "Bebop.Text.TK." ""
+
+def step (toks : List String) : String :=
+  match toks with
+  | ["parse", h, io] =>
+    match unhex h with
+    | some bs => showRead (readFile bs (io == "1"))
+    | none => "bad-op parse"
+  | ["tok", h, io] =>
+    match unhex h with
+    | some bs =>
+      let (ts, t) := allTokens (2 * bs.length + 4) (mkTR bs (io == "1")) []
+      "ok " ++ toString ts.length ++ String.join (ts.map fun tk => " " ++ kindName tk.kind ++ ":" ++ hexStr tk.concrete) ++
+        " errs " ++ toString t.errs.length ++ (if t.panicked then " panicked" else "")
+    | none => "bad-op tok"
+  | ["gen", seed, size, imports] =>
+    match seed.toNat?, size.toNat? with
+    | some seed, some size =>
+      let src := Gen.run seed (imports == "2") (Gen.genFile size (imports == "1"))
+      let text := print (Gen.layoutOf seed) src
+      match toFile src with
+      | some f => "ok " ++ hexStr text ++ " " ++ dumpFile f
+      | none => "bad-src " ++ hexStr text
+    | _, _ => "bad-op gen"
+  | _ => "bad-op text " ++ String.intercalate " " toks
 
 end Driver.Text
